@@ -677,7 +677,7 @@ func c16ArbCase(h *vHarness, r *vRand) {
 				p.ready = !p.ready
 				upd := w.mkPod(p)
 				upd.ResourceVersion = cur.ResourceVersion
-				if err := w.c.Update(ctx, upd); err != nil {
+				if err := w.c.Status().Update(ctx, upd); err != nil { // readiness lives in the status subresource
 					panic(err)
 				}
 				h.Op("ready %d %d", pod, vB(p.ready))
